@@ -9,6 +9,9 @@ ID = "C09"
 
 def setup(ctx):
     hooks.RATE = 1
+    # refused calls which have started to create references (placeholders for identifiers they
+    # mention) before the point of failure: the identifiers they alone mentioned are free again
+    H.PROBE_RATE = 0.35
 
 
 def cases(rng, tier, shard, nshards):
